@@ -12,850 +12,865 @@ Definition show_fres (r : fres) : string :=
   end.
 Definition check (rs : list rune) : string := digest (show_fres (format_res rs)).
 Definition full (rs : list rune) : string := show_fres (format_res rs).
-Eval vm_compute in ("<<<M263>>>" ++ check (runes_of_ascii "
-packet Z9_ //x
-{ @calculatedFrom( ""1"" )
-match
-body as u8x{ [ 7 ] :
-u ,
-[7
-,00, ""a\""b""
-, """" , ""\n"" , 00
-] : charz , 1	: // c
-Packet
-, """ ++ [28040; 24687]%N ++ runes_of_ascii """ :
-f32a ,  00 : // trailing space 
-len } ,@lengthOf(calculatedFrom )	MetaDataX
-    , Packet	@lengthOf(
-    int ) , repeat // `tick` ""quote"" 'q'
-char[ 7 ]calculatedFrom, @calculatedFrom(""a\\"" ) zchar[ //
-255 // " ++ [128512]%N ++ runes_of_ascii " emoji
-] f32a @calculatedFrom( """ ++ [233]%N ++ runes_of_ascii "t" ++ [233]%N ++ runes_of_ascii """ ) ,	@calculatedFrom( ""a\""b"" // packet A { u8 x, }
-)char[7
-    //	t
-    ] i8i8 @calculatedFrom(""a\\"") `crlf
-line` ,zchar[
-    0123456789	]
-x `line1
-line2`
-,@leftPad () repeat
-u64 stringy , @lengthOf( x	) repeat
-body
-{//	t
-Z9_ {
-repeat asx , repeat crc i64_ // " ++ [27880; 37322]%N ++ runes_of_ascii "
-, repeat rootA { repeat rootA MetaDataX `line1
-line2`
-    // `tick` ""quote"" 'q'
-    ,match
-i64_ as
-calculatedFrom {
-    7
-:
-x[ 7 ] : stringy , ""1"": i8i8 , [
-""1"" , 42 ,
-// trailing space 
-/// triple
-""" ++ [233]%N ++ runes_of_ascii "t" ++ [233]%N ++ runes_of_ascii """ , 10 ,
-255 , 0 , 10 ]
-: u ,
-""x y""
-:
-    i8i8 }
-// `tick` ""quote"" 'q'
-//x
-,uint64 _x `
-` ,char[ 0 ] i64_ @calculatedFrom( ""CRC32""
-)
-    , }, x_y_z {
-char[] T
-// a // b
-// @lengthOf(
-,} ,} ,repeat  u64 Foo `a\`,
-    uint8
-uint8x,
-match
-//	t
-// trailing space 
-roots
-as chars {1
-    : _x ""a\""b"" :uint8x, 42 : metadata // " ++ [128512]%N ++ runes_of_ascii " emoji
-, // `tick` ""quote"" 'q'
-[// @lengthOf(
-""\n"" ,
-255]
-: zchar
-[ """ ++ [233]%N ++ runes_of_ascii "t" ++ [233]%N ++ runes_of_ascii """ ,3
-, 4294967296 ,// trailing space 
-0123456789 , ""x y"" ] : metadata[ // c
-""it's"" , ""// no comment""
-]  :Z9_
-    , }
-,	}
-    , } // a // b
-MetaData rootA	{ char[ 4294967296 ] msg_type,// @lengthOf(
-char[]  u128, uint64 a1 , int8 crc , Pad
-    msg_type `doc`
-,
-}
-//	t
-/// triple
-packet x_y_z
-    {@lengthOf( crc) match packetx as f32a	{ 0123456789:A
-,	00 :	u // @lengthOf(
-}, }
-")).
-Eval vm_compute in ("<<<M225>>>" ++ check (runes_of_ascii "packet T
-    // " ++ [128512]%N ++ runes_of_ascii " emoji
-    { match repeatCount as
-Packet {
-    ""packet"" : msg_type , 00 :
-    Foo
-    ,""" ++ [128512]%N ++ runes_of_ascii """ : trueish, """": repeatCount
-    [ // packet A { u8 x, }
-4294967296 , 65535 ] :	u ,	}, @calculatedFrom( ""a\\"" )
-    float32 len @lengthOf(// " ++ [128512]%N ++ runes_of_ascii " emoji
-string_
-    ), stringy Pad, roots{ repeat x_y_z
-    `// not a comment`
-, T
-`" ++ [233]%N ++ runes_of_ascii "` , }, @tag(
-007 )  _x
-{// " ++ [128512]%N ++ runes_of_ascii " emoji
-char[] body
-@calculatedFrom( """ ++ [233]%N ++ runes_of_ascii "t" ++ [233]%N ++ runes_of_ascii """
-    //	t
-    ) ,repeat Pad// packet A { u8 x, }
-``
-// c
-/// triple
-, }
+Eval vm_compute in ("<<<M317>>>" ++ check (runes_of_ascii "MetaData Logon
+    {
+    char[]u8x , matchKey pack,
+u8 int ``, char[ 007
+    ]
+msg_type ,
+BodyLength o	,string_ crc  `a\`, } options	{
     //x
-    , match	u as packetx{// `tick` ""quote"" 'q'
-[ ""// no comment"" ,
-007]	: T
-, [  ""\" ++ [233]%N ++ runes_of_ascii """// " ++ [27880; 37322]%N ++ runes_of_ascii "
-] :// trailing space 
-u8x } , @rightPad( ) int8 _x , @lengthOf(
-A	)match/// triple
-crc
-as metadata { [ 00,
-    //	t
-    ""a\""b"" ,3
-    , 1
-    ,
-10 ] : Packet , //	t
-[
-4294967296	, ""abc"" , """"] // @lengthOf(
-:
-// `tick` ""quote"" 'q'
-// " ++ [27880; 37322]%N ++ runes_of_ascii "
-a1 , """ ++ [28040; 24687]%N ++ runes_of_ascii """ // `tick` ""quote"" 'q'
-:
-    repeatCount  , } , }options { }MetaData Header
-{  trueish Pad ,
-    } MetaData Z9_ { char[]
-metadata ,
-// " ++ [128512]%N ++ runes_of_ascii " emoji
-// packet A { u8 x, }
-Header A
-`doc`
-// a // b
-// a // b
-, //x
-uint32 // " ++ [27880; 37322]%N ++ runes_of_ascii "
-packetx ,
-int16 uint8x
-    //
-    , Header// @lengthOf(
-leftPad
-    , // packet A { u8 x, }
-}
-// trailing space 
-")).
-Eval vm_compute in ("<<<M1723>>>" ++ check (runes_of_ascii "
-
-  options // @lengthOf(
-
-{zchar
-=
-
-    char[]
-Z9_ =	'0'  ; 
-} options	{ asx
-=
-char[]
-
-}  root
-packet
-    leftPad 
-{ T
-
-@lengthOf(
-f32a  //
-) , }	//
-  root 
-        //x
-
-	// @lengthOf(
-    packet
-calculatedFrom
-{ u
-
-    {//	t
-char[] // packet A { u8 x, }
-T
-    `" ++ [233]%N ++ runes_of_ascii "`, match
-    stringy	/// triple
-  as//	t
-  	chars 
-{ 
-[ 
-0123456789  ]
-:
-T,
-    // `tick` ""quote"" 'q'
-		// " ++ [27880; 37322]%N ++ runes_of_ascii "
-  }
-    ,
-uint16
-    a1
-
-    @lengthOf(x
-) ,
-	string
-
-chars
-    `two words` ,
-} ,@calculatedFrom(
-    ""x y""
-)
-char[]
-	    // " ++ [27880; 37322]%N ++ runes_of_ascii "
-    // " ++ [128512]%N ++ runes_of_ascii " emoji
-    body
-    @lengthOf(
-lengthOf 
-)
-    /// triple
-    ,
-@lengthOf(
-	A
-
-)
-	rootA
-,@lengthOf(
-i64_
-) // packet A { u8 x, }
-	repeat
-f32a  {	lengthOf 
-// " ++ [128512]%N ++ runes_of_ascii " emoji
-    charz// a // b
-		`" ++ [28040; 24687; 31867; 22411]%N ++ runes_of_ascii "` ,
-	} 
-    // packet A { u8 x, }
-  ,
-
-    match
-	tag
-as 
-      //x
-  //	t
-		T
-{	[ 3] 
-:
-falsey ,
-    }
-, 
-zchar[
-
-00
-] 
-charz@lengthOf( Pad
-
-)
-
-    ,
-
-    @tag( 3 )
-lengthOf
-{
-i16 
-As , 
-}
-    ,
-}
-
-root
-packet body
-
-{
-	}")).
-Eval vm_compute in ("<<<M1678>>>" ++ check (runes_of_ascii "options {
-    StringPrefixLenType = u64;
-    ArrayPrefixLenType = u32;
-    FixedStringPadFromLeft = false;
-}
-
-packet Party {
-    zchar[7] OrderId,
-    InTail6 {
-        repeat char[1] msgKind,
-        char[3] Tail,
-        char[3] Flags,
-        i16 tag7,
-    },
-    @rightPad('0')
-    char[12] clOrdID,
-}
-
-packet Quote {
-    @leftPad('0')
-    char[11] price,
-    repeat InCount7 {
-        i32 x,
-        Party,
-        u8 Ref,
-        u8 tag7,
-    },
-    char[] seqNo,
-    Party,
-}
-
-packet Logon {
-    @rightPad('\x00')
-    char[5] Note,
-    i16 sym,
-    InPrice72 {
-        char[9] Ref,
-        zchar[1] venue,
-    },
-    char[] clOrdID,
-}
-
-root packet Reject {
-    repeat Logon,
-    @leftPad(' ')
-    char[4] seqNo,
-    zchar[5] Acct,
-    u32 x,
-    u16 f1 @lengthOf(Body),
-    match x as Body {
-        [169, 74] : Quote,
-        45 : Party,
-        7 : Logon,
-    },
-}")).
-Eval vm_compute in ("<<<M228>>>" ++ check (runes_of_ascii "packet
+    trueish = int16 Packet
+    = char MetaDataX=
+char[
 //
-// " ++ [27880; 37322]%N ++ runes_of_ascii "
-BodyLength  {
+// trailing space 
+255 ] // a // b
+;}	root
+    //
+    packet a1 // packet A { u8 x, }
+{ } root packet // c
+MetaDataX{
+@lengthOf(_x)
 repeat
-    // @lengthOf(
-    zchar[	255]tag `crlf
-line` , } MetaData BodyLength	{
-char[ 65535] //	t
-packetx `" ++ [28040; 24687; 31867; 22411]%N ++ runes_of_ascii "` , } options
-    {
-    metadata =3; // trailing space 
-} packet Packet
-{ o { uint16	Logon
-    , } , @leftPad (  )char[ 0123456789 ]
-a1 `" ++ [28040; 24687; 31867; 22411]%N ++ runes_of_ascii "` // a // b
+Logon{// " ++ [128512]%N ++ runes_of_ascii " emoji
+o
+a1 , uint64
+    u128 ,  } ,zchar[007] chars
+    `line1
+line2` ,	repeat Header u128`doc`, // " ++ [128512]%N ++ runes_of_ascii " emoji
+@calculatedFrom(""1"")int
+trueish
+, char[0123456789
+    ]
+uint8x,
+i8 int	@lengthOf( msg_type )`line1
+line2`
 ,
-    repeat string
-lengthOf
-    `{ , }`	,stringy crc
-,@rightPad (
-' ' ) u32	MetaDataX
+    //x
+    @rightPad (
+) repeat f64 Z9_, metadata{ falsey @calculatedFrom(
+""abc""
+) , }, options1 @calculatedFrom( ""\n"" ) ,@calculatedFrom(	""\n"" )  match metadata
+    as Header {[
+    """" ,  ""1"" ] :	Foo //
+, [  ""\n""
+, 10
+,
+// " ++ [27880; 37322]%N ++ runes_of_ascii "
+// c
+""{,}"" ]
+: Logon
+,
+[
+    """"] :
+len
+, ""\n""  :// trailing space 
+msg_type , [ // c
+00 ]
+    : trueish , 10 : u8x, }
     ,
-@rightPad('0' ) tag	{repeat f64 tag `u8 x,`
-, }
-    //	t
-    , char[
-    00 ] uint8x `` , match leftPad  as Header {""" ++ [233]%N ++ runes_of_ascii "t" ++ [233]%N ++ runes_of_ascii """  : Foo
-, [	""\" ++ [233]%N ++ runes_of_ascii """
-, 007
-,00 , 10, ""\" ++ [233]%N ++ runes_of_ascii """ ]: crc
-, [ 1 ,007 , ""a\\""
-    ,
-""packet""
-    ]: //	t
-len // packet A { u8 x, }
-, 10 : MetaDataX
-//x
-// " ++ [128512]%N ++ runes_of_ascii " emoji
-,  }
-//	t
-/// triple
-, } packet
-    i64_{
-@rightPad	('\x00'
-)
-@leftPad(
-) i8 body@calculatedFrom(""" ++ [233]%N ++ runes_of_ascii "t" ++ [233]%N ++ runes_of_ascii """) `it's` , }
-// @lengthOf(
-")).
-Eval vm_compute in ("<<<M1346>>>" ++ check (runes_of_ascii "options
-{ StringPrefixLenType	= u16	;	ArrayPrefixLenType =
-u32; FixedStringPadFromLeft = 
-true;  FixedStringPadChar 
-=	'0'
-    ;
-
-    } packet Cancel{
-    }
-
-packet
-Party
-{
-
-    } packet	Logon { } packet 
-Ack
-{ }
-packet 
-Logout
-{ repeat
-InSym87 {InClordid94
-
-{ string clOrdID	,
-    } 
-, 
-string
-    Px , i16  Qty,	repeat  InCount71	{repeat
-    Cancel 
-,
-uint16	Tail
-, char[
-	2
-
-]
-x
-    ,repeat string Ref
-
-,
-
-}
-
-, Cancel
-	,
-}
-    , } 
+    } // " ++ [27880; 37322]%N ++ runes_of_ascii "
 root
-    packet
-    Order  {
-    repeat
-string 
-tag7 
+packet
+    BodyLength
+    { char[42
+] body  @calculatedFrom(
+    ""{,}"" ) `tab	here` // trailing space 
 ,
-
-@leftPad
-
-( ' ' ) char[3  ]
-	Px
-	, u8	Qty ,
-    match  Qty
-
-    as
-Body
-    {
-	[ 
-28
-
-    ,	62 ]
-    : 
-Logon
-
-    ,148 : Ack, 88:Party	, 184
-: 
-Cancel	, }
-    , u16	Note@calculatedFrom(
-	""CRC32"" )
-
-,  }
+i32
+stringy  @calculatedFrom( """ ++ [28040; 24687]%N ++ runes_of_ascii """ ),  @tag(  0123456789	)
+@rightPad ( )@tag( 00 )  i16 a1 @lengthOf( pack// a // b
+) ,
+    @tag( 10
+)
+@leftPad ('\x00' ) // `tick` ""quote"" 'q'
+@calculatedFrom( ""a\""b"" ) repeat char[] // c
+stringy `
+`	, chars `say ""hi""`,
+@lengthOf(  a1 ) @leftPad( '0'  )
+    match Z9_
+as Header { 00
+    //	t
+    : As ,
+} // " ++ [27880; 37322]%N ++ runes_of_ascii "
+, o @calculatedFrom( """ ++ [128512]%N ++ runes_of_ascii """
+    )
+, @leftPad //	t
+(	)As// trailing space 
+@calculatedFrom( ""// no comment"") ,
+match x_y_z  as
+    BodyLength {
+""x y"" // `tick` ""quote"" 'q'
+:BodyLength
+, """ ++ [28040; 24687]%N ++ runes_of_ascii """  : packetx  , 0 :
+    Header ,
+    ""x y"" : matchKey
+    //	t
+    ,}, } // trailing space ")).
+Eval vm_compute in ("<<<M53>>>" ++ check (runes_of_ascii "root
+packet u {
+    char[007 ]x_y_z
+`two words` , int16 u8x
+    @calculatedFrom( ""packet""
+    )
+    // @lengthOf(
+    ,
+    float64
+    falsey
+@calculatedFrom( ""\" ++ [233]%N ++ runes_of_ascii """ ) `u8 x,`
+    ,
+    trueish @calculatedFrom(
+    """ ++ [233]%N ++ runes_of_ascii "t" ++ [233]%N ++ runes_of_ascii """ )
+`tab	here` , @tag( 1	) repeat char[
+4294967296 ]
+    // " ++ [128512]%N ++ runes_of_ascii " emoji
+    u , match
+    // " ++ [27880; 37322]%N ++ runes_of_ascii "
+    i8i8
+    //
+    as // " ++ [128512]%N ++ runes_of_ascii " emoji
+o
+    { [""a\\""
+    ]:
+    matchKey,[ 0123456789
+    //x
+    , ""x y""  , 0 ,
+/// triple
+/// triple
+00 , ""a	b"" ,""{,}"" , // a // b
+""{,}"" ,
+007 ] :
+u8x,
+255 : u128 , [
+""" ++ [28040; 24687]%N ++ runes_of_ascii """
+    , 0123456789	,65535 ,
+    // a // b
+    ""\n"" ] : _x, 7 :
+falsey} , @leftPad ( )// " ++ [128512]%N ++ runes_of_ascii " emoji
+charz @lengthOf(A ) , // `tick` ""quote"" 'q'
+} root packet stringy
+{
+    repeat
+    MetaDataX {float32
+T , string
+    x_y_z `a\`
+, repeat	_x  zchar`u8 x,` , }
+    , } packet Foo {
+    @lengthOf(  roots
+    ) calculatedFrom a1, zchar[ 0123456789]	_x,
+// @lengthOf(
+// trailing space 
+match //
+roots as MetaDataX // c
+{ /// triple
+42 :	_x ,
+3// a // b
+:msg_type  7 : a1, """"	:i8i8 , //x
+[ """ ++ [233]%N ++ runes_of_ascii "t" ++ [233]%N ++ runes_of_ascii """ ]: i8i8 , 00 : leftPad ,
+    } , @calculatedFrom( // @lengthOf(
+"""" ) char[  00 // c
+]
+Foo
+@lengthOf( uint8x) ,  f32 chars , }packet
+    metadata
+    //	t
+    { } MetaData i64_ // packet A { u8 x, }
+{ lengthOf options1 ,
+// @lengthOf(
+//x
+a1 A,
+    x Header ,
+    }
 ")).
-Eval vm_compute in ("<<<M1421>>>" ++ check (runes_of_ascii "packet tag {
-    @calculatedFrom(""x y"")
-    lengthOf {
-        options1 `
-        `,
+Eval vm_compute in ("<<<M1853>>>" ++ check (runes_of_ascii "root packet metadata {
+    @lengthOf(options1)
+    int32 zchar @calculatedFrom(""// no comment"") `
+    `,
+    repeat calculatedFrom `it's`,//
+    match BodyLength as lengthOf {
+        3 : leftPad,
     },
-    @tag(7)
-    int {
-        //x
-        // " ++ [27880; 37322]%N ++ runes_of_ascii "
-        char[007] calculatedFrom @lengthOf(metadata),
-        tag @lengthOf(falsey),
-        f32 calculatedFrom `{ , }`,
-        i8i8 {
-            string i64_ @lengthOf(asx) `it's`,
-            u @calculatedFrom(""\n""),
+    repeat u128,
+    char[10] chars,// @lengthOf(
+    falsey @calculatedFrom(""x y"") `{ , }`,
+    @tag(42)
+    float64 i64_,
+    u8x @calculatedFrom(""{,}"") `two words`,
+    @lengthOf(T)
+    char[255] pack `it's`,
+    match MetaDataX as i64_ {
+        //
+        """ ++ [28040; 24687]%N ++ runes_of_ascii """ : Header,
+        0 : x_y_z,
+        3 : int,
+        ""abc"" : u8x,
+    },
+}
+
+packet i64_ {
+    @rightPad()
+    /// triple
+    pack {
+        match MetaDataX as trueish {
+            1 : len,
+            00 : falsey,
+            """" : x,
         },
     },
-    @calculatedFrom(""abc"")
-    @leftPad(' ')
-    uint64 calculatedFrom,// " ++ [27880; 37322]%N ++ runes_of_ascii "
+    @tag(1)
+    char[] int @lengthOf(metadata),
+    a1 @lengthOf(calculatedFrom),
+    @tag(7)
+    tag @lengthOf(u),
+    BodyLength @calculatedFrom(""it's"") `say ""hi""`,
+    string msg_type,
 }
 
-packet o {
-    Header,
-    @lengthOf(i8i8)
-    float32 Pad,
-    char[42] leftPad @calculatedFrom(""""),
-    @tag(255)
-    body u,
+MetaData Logon {
+    BodyLength _x `it's`,
+    int32 body,
+    // trailing space 
 }
 
-packet lengthOf {
-    @tag(255)
-    char[0123456789] o `
-    `,
+root packet body {
 }")).
-Eval vm_compute in ("<<<M1294>>>" ++ check (runes_of_ascii "// top
-packet // c0a
-  // c0b
-A // c1
+Eval vm_compute in ("<<<M1446>>>" ++ check (runes_of_ascii "// top
+    options 
+  // c0
+{ 	 // c1
+	uint8x 	 // c2a
+	// c2b
+	=
+    007  // c4a
+    // c4b
+; lengthOf
+    // c6
+  	=
+i8
+    ; 	 // c9a
+    // c9b
+
+} packet
+    i64_ 
+    // c12
+
+	{	// c13
+	  @calculatedFrom(	// c14
+	  ""1""
+	// c15
+) 	 // c16
+	@tag( // c17
+	3 
+) 
+// c19
+@lengthOf( 
+
+    // c20
+  rootA
+)	// c22
+    repeat  // c23
+    int8 // c24a
+	// c24b
+    	Packet  // c25a
+	// c25b
+  `u8 x,` 	 // c26
+
+,// c27
+  	} // c28a
+// c28b
+	root
+	    // c29
+  packet 	 // c30a
+
+  // c30b
+stringy
+
+// c31
+	  {	// c32a
+    // c32b
+@rightPad
+
+( ' '// c35
+		)// c36
+
+repeat	// c37a
+  // c37b
+	char[  // c38
+      10// c39
+]
+    repeatCount // c41a
+    	// c41b
+  ,// c42
+
+  @tag( // c43a
+    	// c43b
+  	255 
+      // c44
+	  ) // c45
+float64
+    // c46
+	  msg_type 
+  // c47
+@calculatedFrom( ""packet"" 
+
+    // c49
+    )// c50a
+	// c50b
+, // c51a
+    // c51b
+
+  }	// c52
+ 
+")).
+Eval vm_compute in ("<<<M322>>>" ++ check (runes_of_ascii "packet leftPad { //
+i8 stringy @calculatedFrom( """ ++ [128512]%N ++ runes_of_ascii """	) , int@calculatedFrom(
+// c
+// " ++ [128512]%N ++ runes_of_ascii " emoji
+""a	b"" )
+`it's` ,
+    @leftPad () @tag( 0123456789
+    )int32 u8x , @lengthOf(A )float64	u128	@calculatedFrom(
+    ""a\\"" ), //x
+} options { //x
+Pad = 0 u =
+    ' ' }MetaData
+    a1 { char[]
+metadata	`// not a comment`
+    // @lengthOf(
+    ,
+}	packet
+Foo { @tag(
+42 )	repeat BodyLength ,
+    int8 metadata`{ , }` ,@leftPad ( // c
+)// " ++ [27880; 37322]%N ++ runes_of_ascii "
+@calculatedFrom(//
+""`tick`""
+    ) @calculatedFrom(	""a	b""	) u32 stringy , @lengthOf( roots ) zchar[ 0 ] msg_type @lengthOf( i64_
+)`tab	here`	,i8 Header	`{ , }`
+, char[ 7
+] trueish @lengthOf(	packetx
+    )
+, u64	charz `
+`
+    ,
+    zchar[
+//	t
+// c
+65535]
+repeatCount
+`it's`
+    ,match // @lengthOf(
+calculatedFrom as calculatedFrom  {""a	b""
+: roots 42	: MetaDataX	,
+},
+}")).
+Eval vm_compute in ("<<<M1362>>>" ++ check (runes_of_ascii "
+options { StringPrefixLenType =  u8;	ArrayPrefixLenType= 
+u32
+;
+
+FixedStringPadFromLeft=
+	true 
+; FixedStringPadChar
+    =
+
+' ' ; 
+}
+	packet Leg
+    {}
+packet Heartbeat
+    {
+
+    zchar[
+
+    6]msgKind
+    ,
+    @rightPad
+('0')
+char[3
+] Qty
+, zchar[9 ] Side2,
+	i8
+
+    Acct
+, } 
+packet Logout{int8	x,
+
+} 
+packet
+Order{
+
+char[]
+
+    Acct  ,
+zchar[
+8 ]
+	count ,
+
+    u32
+OrderId 
+,uint8 
+lastPx	,  u16
+clOrdID ,	zchar[ 
+7]
+    Note	,
+    }
+    root packet Reject {
+@leftPad(
+' '
+) char[ 8 ]Side2,
+
+i8 
+clOrdID , repeat
+	f32
+
+x
+,
+u32
+	lastPx,
+match
+lastPx as Body {
+    [30
+	, 147] : Heartbeat
+
+    ,	134 :
+Leg	, 183	:
+
+    Logout ,
+40
+	: Order,}, 
+u16	Ref 
+@calculatedFrom(
+	""CRC32"" ), }
+")).
+Eval vm_compute in ("<<<M1798>>>" ++ check (runes_of_ascii "packet stringy {
+    repeat T {
+        u64 lengthOf `tab	here`,
+        repeat _x {
+            match calculatedFrom as Header {
+                [""" ++ [233]%N ++ runes_of_ascii "t" ++ [233]%N ++ runes_of_ascii """] : _x,
+                // @lengthOf(
+                [""packet""] : MetaDataX,
+                255 : u128,
+                42 : A,
+                ""// no comment"" : body,
+            },
+            repeat crc Foo,
+            charz,
+        },
+        zchar[1] i8i8 @calculatedFrom(""x y""),
+        uint8x Pad `line1
+                line2`,
+    },
+    @lengthOf(u)
+    char[4294967296] crc,
+    @tag(007)
+    repeatCount,
+    repeat char[] Header,
+    @rightPad()
+    char[] string_ `a\`,
+}")).
+Eval vm_compute in ("<<<M1724>>>" ++ check (runes_of_ascii "  packet
+    Header
+
+{	char[
+
+    10
+	]
+
+    A `it's` , @calculatedFrom( 
+""" ++ [28040; 24687]%N ++ runes_of_ascii """ 
+)
+    calculatedFrom	// a // b
+      @lengthOf(
+	zchar )	`tab	here`
+
+    , u32 BodyLength  ,
+
+    @lengthOf(
+stringy )//
+@rightPad (
+
+    ' '
+) @tag(0123456789
+
+    )  body{ match	i8i8 as Foo	{  [7,
+""CRC32"" ] :
+	options1
+    ,[
+""a\""b""
+,
+
+    """ ++ [128512]%N ++ runes_of_ascii """
+	,
+
+""it's"" ,
+    ""a	b"",
+	""// no comment""
+	,
+    ""it's""
+
+    , 7
+
+,
+""abc"" ]
+    :
+As ,
+
+1 :
+
+    _x 
+    // " ++ [128512]%N ++ runes_of_ascii " emoji
+//
+  }, repeat
+
+    uint8x  {  crc 
+@calculatedFrom( ""a\\""  )
+,
+
+}  , repeat
+
+    i8
+tag ,// " ++ [128512]%N ++ runes_of_ascii " emoji
+	} ,
+}
+")).
+Eval vm_compute in ("<<<M1521>>>" ++ check (runes_of_ascii "
+options
+    {
+    ArrayPrefixLenType=u64 ; FixedStringPadFromLeft=	true
+;
+FixedStringPadChar =
+
+'0'
+;
+    }
+
+    packet
+
+    Quote{
+
+} packet
+
+Ack 
+{
+    repeat
+InNote66
+{
+u8 pad0 
+,
+
+    } , 
+}
+
+    packet 
+Reject
+{
+
+}
+
+root packet
+
+Order
+	{Quote ,
+
+repeat
+	Reject
+	,  string 
+venue
+, string	seqNo
+
+    , uint32 Ref ,  u16
+    lastPx
+
+,
+	u32
+clOrdID
+    @lengthOf(
+    Body  ) ,
+
+match
+lastPx as  Body
+{
+
+    190
+	: Reject,  186:  Quote , 22 :	Ack ,
+} , u16 Flags
+	@calculatedFrom(  ""CRC32""
+
+)  , }
+
+")).
+Eval vm_compute in ("<<<M1412>>>" ++ check (runes_of_ascii "// top
+packet Logon {
+    // c2a
+    // c2b
+    string user,// c5a
+    // c5b
+}// c6a
+
+// c6b
+root packet Frame {
+    // c10
+    u8 K,
+    // c13
+    match K as Body {
+        // c18
+        1 : Logon,
+        // c22a
+        // c22b
+        2 : Logout,
+        // c26
+    },// c28a
+    // c28b
+    Tail,// c30a
+    // c30b
+}// c31a
+
+// c31b
+packet Logout {
+    // c34a
+    // c34b
+    u16 reason,
+}
+
+// c38
+packet Tail {
+    // c41
+    u32 crc,// c44
+}// c45a
+// c45b")).
+Eval vm_compute in ("<<<M68>>>" ++ check (runes_of_ascii "
+packet
+    Header {  match roots  as packetx
+// " ++ [27880; 37322]%N ++ runes_of_ascii "
+//	t
+{
+    // `tick` ""quote"" 'q'
+    [
+""" ++ [28040; 24687]%N ++ runes_of_ascii """ ,
+    0123456789 ]:packetx,
+//
+// c
+4294967296
+    : Logon ,	[ ""\n""
+    ,""x y"" , // " ++ [128512]%N ++ runes_of_ascii " emoji
+""packet"" , ""packet"" ] : i8i8 , 42 // `tick` ""quote"" 'q'
+:Foo
+    ,
+}, //	t
+@calculatedFrom( ""x y""	) f64 Logon ,} options
+    {
+    // " ++ [128512]%N ++ runes_of_ascii " emoji
+    chars=
+' '
+    ; repeatCount =
+""" ++ [233]%N ++ runes_of_ascii "t" ++ [233]%N ++ runes_of_ascii """ x	= ""\n"" ; calculatedFrom = ""`tick`"" //x
+; }
+")).
+Eval vm_compute in ("<<<M1262>>>" ++ check (runes_of_ascii "// top
+packet // c0
+B // c1
 {
     // c2
 u8
     // c3
-a // c4a
-  // c4b
-, } // c6a
-  // c6b
-packet // c7a
-  // c7b
-B // c8a
+a , } root packet // c8a
   // c8b
-{ u16 // c10
-b // c11a
-  // c11b
-,
-    // c12
-}
-    // c13
-root // c14
-packet P // c16
-{ // c17a
-  // c17b
-u8 K1 // c19
-, // c20
-u8 // c21a
-  // c21b
-K2 // c22a
-  // c22b
-, // c23a
-  // c23b
-match // c24a
-  // c24b
-K1 as
-    // c26
-M1 // c27a
-  // c27b
-{ // c28a
-  // c28b
-1
-    // c29
-:
-    // c30
-A // c31
-, // c32a
-  // c32b
-} , match K2
-    // c36
-as
-    // c37
-M2 // c38
-{ 1 : // c41a
-  // c41b
-B
-    // c42
-, } ,
-    // c45
-} // c46
-")).
-Eval vm_compute in ("<<<M1300>>>" ++ check (runes_of_ascii "// top
-packet // c0
-A { u8
-    // c3
-a , // c5a
-  // c5b
-} // c6
-packet
-    // c7
-B { // c9a
+P // c9a
   // c9b
-u16 // c10a
-  // c10b
-b // c11
-, // c12
-}
-    // c13
-root packet // c15a
-  // c15b
-P { // c17
-u8 // c18
-K // c19
-, // c20
-match // c21
-K // c22
-as // c23
-M // c24a
-  // c24b
 {
-    // c25
-[ // c26
-1
-    // c27
+    // c10
+u8 // c11
+K , // c13
+u64 // c14a
+  // c14b
+L @lengthOf( // c16a
+  // c16b
+Body
+    // c17
+) , match // c20a
+  // c20b
+K as // c22a
+  // c22b
+Body // c23
+{ // c24a
+  // c24b
+1 : // c26a
+  // c26b
+B // c27a
+  // c27b
 ,
     // c28
-2 // c29a
-  // c29b
-] // c30a
-  // c30b
-: // c31a
-  // c31b
-A // c32a
-  // c32b
-, 3
-    // c34
-: // c35
-B // c36a
-  // c36b
-, 7 // c38
-: // c39a
-  // c39b
-A // c40
-, // c41
-} ,
-    // c43
+} // c29
+, // c30
 }
-    // c44
+    // c31
 ")).
-Eval vm_compute in ("<<<M33>>>" ++ check (runes_of_ascii "packet
-int {zchar[ 007 ] metadata ,i16	matchKey,
-@rightPad('0')
+Eval vm_compute in ("<<<M127>>>" ++ check (runes_of_ascii "packet a1{ @leftPad ( ) float
 @lengthOf(
-    metadata) repeat zchar[
-    10 ]
+uint8x ) , }
+packet Logon {
+char Logon
+@calculatedFrom( ""a\\"" )
+    ,T stringy ,
 //
-// " ++ [128512]%N ++ runes_of_ascii " emoji
-charz
-    // trailing space 
-    ,	} packet int { @tag( 65535 )
-u32 x @calculatedFrom(
-    ""x y""// " ++ [27880; 37322]%N ++ runes_of_ascii "
-),match pack as MetaDataX
-{
-    [	""abc"" ,
-    // " ++ [27880; 37322]%N ++ runes_of_ascii "
-    0123456789 , ""`tick`"" ] :
-body}	, @lengthOf( zchar ) match leftPad as u8x{
-    10:  u8x ,
-[
-007
-    // " ++ [128512]%N ++ runes_of_ascii " emoji
-    , 255
-    ]
-    :
-    chars	"""" :
-    body ,42 : trueish , }, }")).
-Eval vm_compute in ("<<<M1750>>>" ++ check (runes_of_ascii "
-options
-    { u
-
-= 7
-        // " ++ [27880; 37322]%N ++ runes_of_ascii "
-roots
-    =
-
-zchar[
-    65535
-
-]
-msg_type=""" ++ [233]%N ++ runes_of_ascii "t" ++ [233]%N ++ runes_of_ascii """  ;x
-=  false
-}MetaData  string_
-
-{  char[	// trailing space 
-    42
-        //x
-  // " ++ [128512]%N ++ runes_of_ascii " emoji
-
-	]
-    i8i8  `" ++ [28040; 24687; 31867; 22411]%N ++ runes_of_ascii "`
-, u8  x_y_z ,
-packetx
-
-    lengthOf
-`` 
-// " ++ [27880; 37322]%N ++ runes_of_ascii "
-  	,T Header
-
-    `line1
-line2`, char[]// " ++ [27880; 37322]%N ++ runes_of_ascii "
-  	u8x
-	`two words`	, 
-}packet
-    float //x
-    { 
-calculatedFrom
-, @rightPad  ('0'  ) char[3  ]
-    u128 ,
-}
-")).
-Eval vm_compute in ("<<<M1625>>>" ++ check (runes_of_ascii "// top
-options {
-    // c1
-    uint8x = 007;
-    // c5
-    lengthOf = i8;
-}
-
-// c10
-packet i64_ {
-    @calculatedFrom(""1"")
-    @tag(3)
-    @lengthOf(rootA)
-    // c22
-    repeat int8 Packet `u8 x,`,
-}
-
-// c28
-root packet stringy {
-    @rightPad(' ')
-    // c36
-    repeat char[10] repeatCount,
-    @tag(255)
-    // c45
-    float64 msg_type @calculatedFrom(""packet""),
-}")).
-Eval vm_compute in ("<<<M323>>>" ++ check (runes_of_ascii "options{ }
-MetaData  string_ // `tick` ""quote"" 'q'
-{ u32
-matchKey `u8 x,`,
-    string  MetaDataX , uint8
-Logon, uint64 options1
-, char[ 00 ] len
-// `tick` ""quote"" 'q'
-// trailing space 
-`tab	here` , u8
-options1
-, }// a // b
-packet a1 { chars ,
-char[]
-i64_ @lengthOf(
-    // " ++ [27880; 37322]%N ++ runes_of_ascii "
-    stringy
-) ,char T,repeat i8 charz
-`a\`
-,
-}
-")).
-Eval vm_compute in ("<<<M205>>>" ++ check (runes_of_ascii "  root packet
-    chars{ string T `say ""hi""`
-, @tag(
-    1  ) body { repeat o { f64 Packet @calculatedFrom( ""a\\"") ,  } , }	,
-} packet pack
-// @lengthOf(
-// a // b
-{
-@tag( 4294967296 // `tick` ""quote"" 'q'
-) repeat char[]
-    Logon
-    // trailing space 
-    , repeat
-BodyLength len ,
-    // c
-    }")).
-Eval vm_compute in ("<<<M1756>>>" ++ check (runes_of_ascii "options {
-    LittleEndian = false;
-    StringPrefixLenType = u16;
-}
-
-packet Heartbeat {
-    @rightPad('0')
-    char[7] seqNo,
-    uint64 Tail,
-    i16 Flags,
-    u16 msgKind,
-}
-
-root packet Reject {
-    zchar[3] tag7,
-    repeat Heartbeat,
-    repeat string clOrdID,
-}")).
-Eval vm_compute in ("<<<M1682>>>" ++ check (runes_of_ascii "packet zchar {
-    zchar[42] uint8x,
-    match A as As {
-        0 : int,
-    },
-    @tag(7)
-    @calculatedFrom(""packet"")
-    match i64_ as metadata {
-        ""CRC32"" : A,
-    },
-}
-
-root packet uint8x {
-    char[00] crc,// " ++ [128512]%N ++ runes_of_ascii " emoji
-}")).
-Eval vm_compute in ("<<<M207>>>" ++ check (runes_of_ascii "
-MetaData chars { } options
-{ As
-= true ;As // `tick` ""quote"" 'q'
-= false; stringy
-= true} packet repeatCount  {string
-    float@lengthOf(
-    matchKey )
-// packet A { u8 x, }
-//x
-`say ""hi""` ,
-}
-")).
-Eval vm_compute in ("<<<M1455>>>" ++ check (runes_of_ascii "options {
-    Z9_ = ""packet"";
-    float = false;
-    A = ' '
-}
-
-MetaData pack {
-    zchar[3] leftPad,
-    zchar falsey `it's`,
-    char[] repeatCount,
-    char[65535] Z9_,
-}")).
-Eval vm_compute in ("<<<M145>>>" ++ check (runes_of_ascii "MetaData //x
-Packet
-/// triple
-// " ++ [27880; 37322]%N ++ runes_of_ascii "
-{	u
-/// triple
 // c
-lengthOf `say ""hi""`
-    , } MetaData metadata {
-    crc chars `crlf
-line` , asx f32a /// triple
+repeat uint8 stringy `two words` , } MetaData charz{ u
+    tag
+    `
+`
+, a1 falsey ,//x
+Z9_
+matchKey , f64 lengthOf	`a\` // @lengthOf(
 ,
+    f32a roots
+    ``
+,float64
+    x_y_z // @lengthOf(
+, }
+")).
+Eval vm_compute in ("<<<M370>>>" ++ check (runes_of_ascii "  root packet trueish // " ++ [128512]%N ++ runes_of_ascii " emoji
+{ char[] MetaDataX , @leftPad (
+    // trailing space 
+    '0' )match float as
+//x
+// trailing space 
+crc { 0123456789 :// " ++ [27880; 37322]%N ++ runes_of_ascii "
+chars	, ""{,}"" : i8i8,
+}
+, f32a
+    // " ++ [128512]%N ++ runes_of_ascii " emoji
+    f32a `tab	here` ,// " ++ [128512]%N ++ runes_of_ascii " emoji
+@lengthOf( Foo )
+    Packet@calculatedFrom( """ ++ [28040; 24687]%N ++ runes_of_ascii """ ) `it's` , }
+")).
+Eval vm_compute in ("<<<M1865>>>" ++ check (runes_of_ascii "packet P1 {
+    u8 a,
+}
+
+packet P2 {
+    P1,
+}
+
+packet P3 {
+    P2,
+    P1,
+}
+
+packet P4 {
+    repeat P3,
+    P2,
+}
+
+root packet P5 {
+    P4,
+    P3,
+    P1,
+    u8 K,
+    match K as Body {
+        4 : P4,
+        3 : P3,
+        2 : P2,
+        1 : P1,
+    },
+}")).
+Eval vm_compute in ("<<<M203>>>" ++ check (runes_of_ascii "root packet Pad {match //	t
+falsey as
+    A{
+255:// `tick` ""quote"" 'q'
+T, } , int64
+Header	`tab	here`
+, repeat i64_ `line1
+line2`, @tag( 7 )
+    float32	zchar
+    @calculatedFrom( ""\" ++ [233]%N ++ runes_of_ascii """
+    )
+//
+// @lengthOf(
+,u64 Header ,
+    }
+")).
+Eval vm_compute in ("<<<M1769>>>" ++ check (runes_of_ascii "
+packet
+
+    repeatCount{  trueish ,  }packet  uint8x
+    { 	 /// triple
+    match
+u8x 
+as 
+calculatedFrom  {
+    [
+4294967296
+]
+
+:len
+
+, [""" ++ [128512]%N ++ runes_of_ascii """ 
+,""" ++ [233]%N ++ runes_of_ascii "t" ++ [233]%N ++ runes_of_ascii """
+,	255
+,//
+
+  1 ] : falsey,
+    }
+
+    ,
+	}
+")).
+Eval vm_compute in ("<<<M1885>>>" ++ check (runes_of_ascii "packet
+    A
+
+    { 
+Inner{	match  k
+as
+
+    n
+	{
+    [
+1
+
+,  22 ,007
+
+    ,
+
+    4,5  ,  66	,
+
+    7
+, 8,
+	9
+
+    , 10
+,	11
+,12 ]
+
+    :
+B
+    ,},
+}
+	,
 }
 
 ")).
-Eval vm_compute in ("<<<M1936>>>" ++ check (runes_of_ascii "// top
-	  packet// c0
-body	// c1
-	{	// c2
-    	i32 	 // c3
-    	f32a 	 // c4
-    	`{ , }` 	 // c5
-
-	,  // c6
-
-}// c7
-
-options  // c8
-{	// c9
-  }	// c10
+Eval vm_compute in ("<<<M224>>>" ++ check (runes_of_ascii "root packet
+T
+{ zchar[ // a // b
+0123456789
+] // c
+uint8x , }  root packet metadata { @rightPad( )  x_y_z @lengthOf( stringy )
+// `tick` ""quote"" 'q'
+// c
+, }")).
+Eval vm_compute in ("<<<M508>>>" ++ check (runes_of_ascii "packet uint8x
+{ match pack
+    as msg_type	{
+    0123456789 :	float
+}
+,
+} packet //	t
+a1
+    { } options {packetx
+    = '\x00'	int16 u128= ""a	b""  ; }
 ")).
 Eval vm_compute in ("<<<M516>>>" ++ check (runes_of_ascii "packet uint8x
 { match pack
@@ -868,9 +883,31 @@ a1
     { } options {packetx
     = '\x00'	; u128= = ""a	b""  ; }
 ")).
-Eval vm_compute in ("<<<M422>>>" ++ check (runes_of_ascii "packet uint8x
+Eval vm_compute in ("<<<M427>>>" ++ check (runes_of_ascii "packet uint8x
 { match pack
-    as {	msg_type
+    as msg_type	0123456789
+    { :	float
+}
+,
+} packet //	t
+a1
+    { } options {packetx
+    = '\x00'	; u128= ""a	b""  ; }
+")).
+Eval vm_compute in ("<<<M445>>>" ++ check (runes_of_ascii "packet uint8x
+{ match pack
+    as msg_type	{
+    0123456789 :	float
+
+,
+} packet //	t
+a1
+    { } options {packetx
+    = '\x00'	; u128= ""a	b""  ; }
+")).
+Eval vm_compute in ("<<<M410>>>" ++ check (runes_of_ascii "packet uint8x
+{ match 
+    as msg_type	{
     0123456789 :	float
 }
 ,
@@ -879,30 +916,6 @@ a1
     { } options {packetx
     = '\x00'	; u128= ""a	b""  ; }
 ")).
-Eval vm_compute in ("<<<M435>>>" ++ check (runes_of_ascii "packet uint8x
-{ match pack
-    as msg_type	{
-    0123456789 	float
-}
-,
-} packet //	t
-a1
-    { } options {packetx
-    = '\x00'	; u128= ""a	b""  ; }
-")).
-Eval vm_compute in ("<<<M1896>>>" ++ check (runes_of_ascii "packet uint8x {
-    match pack as msg_type {
-        ""`tick`"" : float,
-    },
-}
-
-packet a1 {
-}
-
-options {
-    packetx = '\x00';
-    u128 = ""a	b"";
-}")).
 Eval vm_compute in ("<<<M660>>>" ++ check (runes_of_ascii "/""/ @lengthOf(
 packet i8i8 { u128 o , }
 options { MetaDataX = true;
@@ -911,225 +924,227 @@ crc //x
 = ""abc"" ;
     msg_type =
 i16 }")).
-Eval vm_compute in ("<<<M420>>>" ++ check (runes_of_ascii "packet uint8x
-{ match pack
-    as 	{
-    0123456789 :	float
-}
-,
-} packet //	t
-a1
-    { } options {packetx
-    = '\x00'	; u128= ""a	b""  ; }
-")).
-Eval vm_compute in ("<<<M1669>>>" ++ check (runes_of_ascii "packet A {
-    match k as n {
-        [
-            22, 4, 66, 8, ""a"",
-            ""c c"", ""e"", ""g""
-        ] : B,
-        2 : C,
+Eval vm_compute in ("<<<M692>>>" ++ check (runes_of_ascii "// @lengthOf(
+packet i8i8 { u128 o , }
+options { MetaDataX = true;
+    BodyLength =""packet"" x_y_z= 007
+u8 //x
+= ""abc"" ;
+    msg_type =
+i16 }")).
+Eval vm_compute in ("<<<M1587>>>" ++ check (runes_of_ascii "packet A {
+    Inner {
+        u8 x `
+                `,
+        Deep {
+            u8 y `
+                        `,
+        },
     },
 }")).
-Eval vm_compute in ("<<<M1638>>>" ++ check (runes_of_ascii "// top
-  root
-	    // c0
-  packet// c1a
-      // c1b
+Eval vm_compute in ("<<<M1405>>>" ++ check (runes_of_ascii "packet A
+{
 
-	P
-    // c2
-  {  // c3
+match
+k
 
-	string
-	s 	 // c5a
-		// c5b
-, 
-      // c6
-}
-")).
-Eval vm_compute in ("<<<M1748>>>" ++ check (runes_of_ascii "packet
-A
-{ match k as
+as
+n	{  [ ""a""
 
-n {
-    [
-""a""
+,
+
+""bb"" , 007 , ""d""
 
     ,
+""e"",  66
 
-22
+, 
+""g""
+	, ""h""
+    ,9
+	,
 
-    ,""c c""
-, 4
-,""e""
-,
+""j""]
+    : B,
 
-    66 ] :
-B ,
-    2  : C	}
-
-,
-    }
-")).
-Eval vm_compute in ("<<<M1164>>>" ++ check (runes_of_ascii "MetaData leftPad { chars MetaDataX , } packet repeatCount { char[
-// c
-255 ] uint8x `" ++ [233]%N ++ runes_of_ascii "` , } MetaData pack { As Foo , }")).
-Eval vm_compute in ("<<<M499>>>" ++ check (runes_of_ascii "packet uint8x
-{ match pack
-    as msg_type	{
-    0123456789 :	float
+2
+	:  C 
+},	} ")).
+Eval vm_compute in ("<<<M1264>>>" ++ check (runes_of_ascii "packet B {
+    u8 a,
 }
-,
-} packet //	t
-a1
-    { } options {packetx")).
-Eval vm_compute in ("<<<M1722>>>" ++ check (runes_of_ascii "options {
-    LittleEndian = true;
-}
-
 root packet P {
-    repeat char cs,// c14a
-    // c14b
-    u8 x,// c17
-}")).
-Eval vm_compute in ("<<<M897>>>" ++ check (runes_of_ascii "packet A {
+    u8 K,
+    match K as Body {
+        1 : B,
+    },
+    u16 L @lengthOf(Body),
+}
+")).
+Eval vm_compute in ("<<<M1152>>>" ++ check (runes_of_ascii "MetaData leftPad { chars MetaDataX
+// c
+, } packet repeatCount { char[ 255 ] uint8x `" ++ [233]%N ++ runes_of_ascii "` , } MetaData pack { As Foo , }")).
+Eval vm_compute in ("<<<M1184>>>" ++ check (runes_of_ascii "MetaData leftPad { chars MetaDataX , } packet repeatCount { char[ 255 ] uint8x `" ++ [233]%N ++ runes_of_ascii "` , } MetaData pack { As
+// c
+Foo , }")).
+Eval vm_compute in ("<<<M894>>>" ++ check (runes_of_ascii "packet A {
   match k as n {
-    [""a"", 22, ""c c"", 4, ""e"", 66, ""g"", 8, ""i"", 10, ""k""] : B,
+    [""a"", ""bb"", ""c c"", ""d"", ""e"", ""f"", ""g"", ""h"", ""i"", ""j"", ""k""] : B
     2 : C
   },
 }")).
-Eval vm_compute in ("<<<M641>>>" ++ check (runes_of_ascii "
+Eval vm_compute in ("<<<M1279>>>" ++ check (runes_of_ascii "options {
+    LittleEndian = true;
+}
+root packet P {
+    u16 a,
+    u32 Sum @calculatedFrom(""CR\
+C32""),
+}
+")).
+Eval vm_compute in ("<<<M1718>>>" ++ check (runes_of_ascii "packet _x {
+}// trailing space 
+
+options {
+    repeatCount = 42;
+    Pad = true;
+    x_y_z = 65535;
+}")).
+Eval vm_compute in ("<<<M590>>>" ++ check (runes_of_ascii "
 packet
     asx {match u128 as lengthOf
+MetaData
+//	t
+// `tick` ""quote"" 'q'
+255 : x ,
+    } ,	}")).
+Eval vm_compute in ("<<<M891>>>" ++ check (runes_of_ascii "packet A {
+  match k as n {
+    [1, 22, 007, 4, 5, 66, 7, 8, 9, 10, 11] : B,
+    2 : C
+  },
+}")).
+Eval vm_compute in ("<<<M559>>>" ++ check (runes_of_ascii "
+packet
+    { asx match u128 as lengthOf
 {
 //	t
 // `tick` ""quote"" 'q'
 255 : x ,
-    } @lengthOf ,	}")).
-Eval vm_compute in ("<<<M1652>>>" ++ check (runes_of_ascii "packet B {
-    u8 a,
-    string s,
-}
+    } ,	}")).
+Eval vm_compute in ("<<<M874>>>" ++ check (runes_of_ascii "packet A {
+  match k as n {
+    [1, 22, ""c c"", 4, 5, ""f"", 7, 8, ""i""] : B
+    2 : C
+  },
+}")).
+Eval vm_compute in ("<<<M1289>>>" ++ check (runes_of_ascii "
+root
 
-root packet P {
-    u16 L @lengthOf(B),
-    B,
-    u8 t,
-}")).
-Eval vm_compute in ("<<<M717>>>" ++ check (runes_of_ascii "// @lengthOf(
-packet i8i8 { u128 o , }
-options { MetaDataX = true;
-    BodyLength =""packet"" ")).
-Eval vm_compute in ("<<<M640>>>" ++ check (runes_of_ascii "
-packet
-    asx {match u128 as lengthOf
-{
-//	t
-// `tick` ""quote"" 'q'
-$255 : x ,
-    } ,	}")).
-Eval vm_compute in ("<<<M602>>>" ++ check (runes_of_ascii "
-packet
-    asx {match u128 as lengthOf
-{
-//	t
-// `tick` ""quote"" 'q'
-255 :  ,
-    } ,	}")).
-Eval vm_compute in ("<<<M860>>>" ++ check (runes_of_ascii "packet A {
-  match k as n {
-    [1, 22, ""c c"", 4, 5, ""f"", 7, 8] : B,
-    2 : C
-  },
-}")).
-Eval vm_compute in ("<<<M852>>>" ++ check (runes_of_ascii "packet A {
-  match k as n {
-    [1, 22, 007, 4, 5, 66, 7, 8] : B,
-    2 : C
-  },
-}")).
-Eval vm_compute in ("<<<M840>>>" ++ check (runes_of_ascii "packet A {
-  match k as n {
-    [1, 22, 007, 4, 5, 66, 7] : B
-    2 : C
-  },
-}")).
-Eval vm_compute in ("<<<M1249>>>" ++ check (runes_of_ascii "packet Inner {
-    u8 a,
-}
-root packet P {
-    Inner ref_obj,
-    u8 x,
-}
+    packet
+
+P
+{repeat	string
+    ss
+    ,  repeat
+    u16
+ns
+    ,
+
+    }
 ")).
-Eval vm_compute in ("<<<M1516>>>" ++ check (runes_of_ascii "  options
-{	asx
-=	""1""//	t
-    	Pad=
-	0
-    stringy
-=	'\x00'
-    ;  }
-")).
+Eval vm_compute in ("<<<M1560>>>" ++ check (runes_of_ascii "packet A {
+    match k as n {
+        [""a"", ""bb"", 007] : B,
+        2 : C,
+    },
+}")).
+Eval vm_compute in ("<<<M819>>>" ++ check (runes_of_ascii "packet A {
+  match k as n {
+    [""a"", 22, ""c c"", 4, ""e""] : B,
+    2 : C
+  },
+}")).
+Eval vm_compute in ("<<<M821>>>" ++ check (runes_of_ascii "packet A {
+  match k as n {
+    [1, 22, ""c c"", 4, 5] : B,
+    2 : C
+  },
+}")).
+Eval vm_compute in ("<<<M793>>>" ++ check (runes_of_ascii "packet A {
+  match k as n {
+    [""a"", 22, ""c c""] : B,
+    2 : C
+  },
+}")).
 Eval vm_compute in ("<<<M1290>>>" ++ check (runes_of_ascii "root packet P {
     u8 s_u8,
     repeat u8 r_u8,
     u16 b_len,
 }
 ")).
-Eval vm_compute in ("<<<M1894>>>" ++ check (runes_of_ascii "packet
-
-A{
-
-B b
-`
-x` , B `
-x` ,
-    repeat 
-B bs 
-`
-x`  , }
-")).
-Eval vm_compute in ("<<<M799>>>" ++ check (runes_of_ascii "packet A { Inner { match k as n { [1,22,007] : B, }, }, }")).
-Eval vm_compute in ("<<<M1197>>>" ++ check (runes_of_ascii "// c
-packet body { i32 f32a `{ , }` , } options { }")).
-Eval vm_compute in ("<<<M251>>>" ++ check (runes_of_ascii "
-root packet
-chars
-{
-    i16 leftPad
-    , }
-")).
-Eval vm_compute in ("<<<M1744>>>" ++ check (runes_of_ascii "options {
-    a1 = ""packet"";
-}// @lengthOf(")).
-Eval vm_compute in ("<<<M1918>>>" ++ check (runes_of_ascii "packet A {
+Eval vm_compute in ("<<<M825>>>" ++ check (runes_of_ascii "packet A { Inner { match k as n { [1,22,007,4,5] : B, }, }, }")).
+Eval vm_compute in ("<<<M1088>>>" ++ check (runes_of_ascii "packet A { @tag(1) // a
+ @leftPad('0') // b
+ char[4] x, }")).
+Eval vm_compute in ("<<<M963>>>" ++ check (runes_of_ascii "MetaData M {
     u8 x `tab
-        	x`,
+	x`,
+    T t `tab
+	x`,
 }")).
-Eval vm_compute in ("<<<M1870>>>" ++ check (runes_of_ascii "MetaData M {
-}
+Eval vm_compute in ("<<<M1708>>>" ++ check (runes_of_ascii "
 
-MetaData N {
+  packet
+
+A
+    { u8 
+x
+
+`d" ++ [12]%N ++ runes_of_ascii "`
+    , 	 // c" ++ [12]%N ++ runes_of_ascii "
+  	}")).
+Eval vm_compute in ("<<<M1658>>>" ++ check (runes_of_ascii "
+MetaData	M { 
+}	// c
+	MetaData 
+N 
+{
+
 }// d")).
-Eval vm_compute in ("<<<M983>>>" ++ check (runes_of_ascii "packet A {
- u8 x `d" ++ [12288]%N ++ runes_of_ascii "`, // c" ++ [12288]%N ++ runes_of_ascii "
-}")).
-Eval vm_compute in ("<<<M581>>>" ++ check (runes_of_ascii "
-packet
-    asx {match u128")).
-Eval vm_compute in ("<<<M268>>>" ++ check (runes_of_ascii " // packet A { u8 x, }")).
-Eval vm_compute in ("<<<M1873>>>" ++ check (runes_of_ascii "root packet chars {
-}")).
-Eval vm_compute in ("<<<M977>>>" ++ check (runes_of_ascii "// c 
+Eval vm_compute in ("<<<M1240>>>" ++ check (runes_of_ascii "root packet P {
+    char c,
+    u8 x,
+}
+")).
+Eval vm_compute in ("<<<M1408>>>" ++ check (runes_of_ascii "
+options
+
+    { 	 // a // b
+  }
+")).
+Eval vm_compute in ("<<<M753>>>" ++ check (runes_of_ascii ":l" ++ [65533; 23]%N ++ runes_of_ascii "9" ++ [65533; 1549]%N ++ runes_of_ascii "F" ++ [65533; 65533; 65533; 65533]%N ++ runes_of_ascii "j)" ++ [65533; 65533; 27; 25; 65533; 65533; 261; 14; 65533]%N ++ runes_of_ascii "V" ++ [65533; 65533]%N ++ runes_of_ascii "4b-" ++ [65533; 65533]%N)).
+Eval vm_compute in ("<<<M1703>>>" ++ check (runes_of_ascii "
+
+  packet 
+A
+{ }
+    // c x")).
+Eval vm_compute in ("<<<M713>>>" ++ check (runes_of_ascii "// @lengthOf(
+packet i8i8")).
+Eval vm_compute in ("<<<M1064>>>" ++ check (runes_of_ascii "packet A {
+}// a// b")).
+Eval vm_compute in ("<<<M1062>>>" ++ check (runes_of_ascii "// c x
 packet A {
 }")).
-Eval vm_compute in ("<<<M1059>>>" ++ check (runes_of_ascii "packet A {
-}// c x")).
-Eval vm_compute in ("<<<M1227>>>" ++ check (runes_of_ascii "packet
-// c
-x { }")).
-Eval vm_compute in ("<<<M1521>>>" ++ check (runes_of_ascii "// @lengthOf(")).
-Eval vm_compute in ("<<<M1010>>>" ++ check (runes_of_ascii "// c" ++ [8232]%N)).
-Eval vm_compute in ("<<<M734>>>" ++ check ([65279]%N)).
+Eval vm_compute in ("<<<M1016>>>" ++ check (runes_of_ascii "packet A {
+}
+// c" ++ [8233]%N)).
+Eval vm_compute in ("<<<M989>>>" ++ check (runes_of_ascii "packet A {
+}// c" ++ [133]%N)).
+Eval vm_compute in ("<<<M1909>>>" ++ check (runes_of_ascii "packet zchar {
+}")).
+Eval vm_compute in ("<<<M1870>>>" ++ check (runes_of_ascii "// " ++ [128512]%N ++ runes_of_ascii " emoji")).
+Eval vm_compute in ("<<<M293>>>" ++ check (runes_of_ascii "  
+
+")).
